@@ -204,6 +204,45 @@ M('argsort-missing-break', 'C18', 'dispatch-arm-matches-case-label',
 M('herm-sorting-accepts-bothends', 'C18,C12', 'dispatch-arm-matches-case-label',
   [('HermEigsBase.h', "        if ((sort_rule != SortRule::LargestAlge) && (sort_rule != SortRule::LargestMagn) &&", "        if ((sort_rule != SortRule::LargestAlge) && (sort_rule != SortRule::LargestMagn) && (sort_rule != SortRule::BothEnds) &&")])
 
+# ----------------------------------------------------------------------------- C10
+M('bkldlt-1x1-status', 'C10', 'status-assigned-on-every-path',
+  [('LinAlg/BKLDLT.h', "        m_info = CompInfo::Successful;\n        Index k = 0;", "        Index k = 0;")], 'reverts fix F3: 1x1 matrices keep NotComputed')
+M('denseshiftsolve-ignores-status', 'C10', 'factorization-status-checked',
+  [('MatOp/DenseSymShiftSolve.h', """        if (m_solver.info() != CompInfo::Successful)
+            throw std::invalid_argument("DenseSymShiftSolve: factorization failed with the given shift");""", "")], 'a singular shift gives inf/NaN instead of an exception')
+M('bkldlt-1x1-no-zero-test', 'C10', 'pivot-division-guarded',
+  [('LinAlg/BKLDLT.h', """        if (akk == Scalar(0))
+            return CompInfo::NumericalIssue;
+
+        // [inverse]
+        // diag_coeff(k) = Scalar(1) / akk;""", """        // [inverse]
+        // diag_coeff(k) = Scalar(1) / akk;""")])
+M('bkldlt-copy-upper-reads-lower', 'C10,C11', 'copy-reads-named-triangle-only',
+  [('LinAlg/BKLDLT.h', "*dest = ScalarOp<Scalar>::conj(src.coeff(j, i));", "*dest = ScalarOp<Scalar>::conj(src.coeff(i, j));")], 'tests only use full symmetric matrices: both triangles equal')
+M('bkldlt-no-break-on-failure', 'C10', 'pivot-division-guarded',
+  [('LinAlg/BKLDLT.h', """            if (m_info != CompInfo::Successful)
+                break;""", "")], 'status of a later block overwrites NumericalIssue')
+M('shiftinvert-helper-ignores-status', 'C10', 'factorization-status-checked',
+  [('MatOp/SymShiftInvert.h', """        const bool success = Helper::factorize(m_solver, m_matA, m_matB, sigma);
+        if (!success)
+            throw std::invalid_argument("SymShiftInvert: factorization failed with the given shift");""", """        Helper::factorize(m_solver, m_matA, m_matB, sigma);""")])
+
+# ----------------------------------------------------------------------------- C11
+M('reginv-cg-default-triangle', 'C11', 'triangle-option-reaches-every-use',
+  [('MatOp/SparseRegularInverse.h', "Eigen::ConjugateGradient<SparseMatrix, Uplo> m_cg;", "Eigen::ConjugateGradient<SparseMatrix> m_cg;")], 'reverts fix F4')
+M('sparsecholesky-lower-only', 'C11', 'triangle-option-reaches-every-use',
+  [('MatOp/SparseCholesky.h', "Eigen::SimplicialLLT<SparseMatrix, Uplo> m_decomp;", "Eigen::SimplicialLLT<SparseMatrix, Eigen::Lower> m_decomp;")])
+M('denseshiftsolve-lower-only', 'C11', 'triangle-option-reaches-every-use',
+  [('MatOp/DenseSymShiftSolve.h', "m_solver.compute(m_mat, Uplo, sigma);", "m_solver.compute(m_mat, Eigen::Lower, sigma);")])
+M('sparsesymprod-matmul-lower', 'C11', 'triangle-option-reaches-every-use',
+  [('MatOp/SparseSymMatProd.h', "return m_mat.template selfadjointView<Uplo>() * mat_in;", "return m_mat.template selfadjointView<Eigen::Lower>() * mat_in;")], 'only operator* (used by Davidson), not perform_op')
+M('helper-factorizes-other-triangle', 'C11', 'assembled-matrix-triangle-typestate',
+  [('MatOp/SymShiftInvert.h', "fac.compute(mat, UploA);", "fac.compute(mat, UploB);")], 'only wrong when UploA != UploB')
+M('helper-mixed-not-transposed', 'C11', 'assembled-matrix-triangle-typestate',
+  [('MatOp/SymShiftInvert.h', "mat += A.template triangularView<UploA>().transpose();", "mat += A.template triangularView<UploA>();")], 'sparse A / dense B with different triangles')
+M('helper-reads-b-through-a-option', 'C11', 'assembled-matrix-triangle-typestate',
+  [('MatOp/SymShiftInvert.h', "SpMat matB = B.template selfadjointView<UploB>();", "SpMat matB = B.template selfadjointView<UploA>();")])
+
 # behaviour-preserving edits: every listed check must stay silent (exit 0)
 NEUTRAL = []
 
